@@ -868,8 +868,124 @@ fn futures_block_on<F: std::future::Future>(fut: F) -> F::Output {
     }
 }
 
+/// C09, the overflow counter through the OTHER recorder route: `metrics_recorder_global` reports
+/// to whichever metrics.rs recorder is in effect when an entry is discarded. Overflows under
+/// recorder A, then under recorder B (`with_local_recorder` scopes), capacities 1..=4, 1..=4
+/// discards under each: every recorder counts exactly the discards that happened under it.
+fn overflow_counter_through_the_global_route(rep: &mut Report) {
+    let mut cases = 0u64;
+    for cap in 1usize..=4 {
+        for under_a in 1u64..=4 {
+            for under_b in 1u64..=4 {
+                cases += 1;
+                let seen = Arc::new(Mutex::new(Vec::new()));
+                let (producer, writer) = BackgroundQueueBuilder::new()
+                    .capacity(cap)
+                    .metrics_recorder_global::<dyn metrics_024::Recorder>()
+                    .__verif_build_unstarted::<IdStream, Tag>(IdStream(seen.clone()));
+                let (a, b) = (Counts::default(), Counts::default());
+                let mut id = 0u64;
+                for _ in 0..cap {
+                    producer.push(Tag(id));
+                    id += 1;
+                }
+                metrics_024::with_local_recorder(&a, || {
+                    for _ in 0..under_a {
+                        producer.push(Tag(id));
+                        id += 1;
+                    }
+                });
+                metrics_024::with_local_recorder(&b, || {
+                    for _ in 0..under_b {
+                        producer.push(Tag(id));
+                        id += 1;
+                    }
+                });
+                writer.shut_down(true);
+                let got = |c: &Counts| c.0.lock().unwrap().get("metrique_queue_overflows").copied().unwrap_or(0);
+                if got(&a) != under_a || got(&b) != under_b {
+                    rep.violation(
+                        "writer:overflow-counter:global-recorder-route",
+                        format!("capacity {cap}, metrics_recorder_global: {under_a} entries were discarded while recorder A was in effect and {under_b} under recorder B; A counted {}, B counted {}", got(&a), got(&b)),
+                        json!({"capacity": cap, "discarded_under_recorder_a": under_a, "discarded_under_recorder_b": under_b, "counted_by_a": got(&a), "counted_by_b": got(&b)}),
+                    );
+                }
+            }
+        }
+    }
+    rep.set("writer_model_overflow_counter_global_route_cases", cases);
+}
+
+/// a stream that tells when it has been dropped
+struct ClosingStream(Arc<Mutex<Vec<u64>>>, Arc<std::sync::atomic::AtomicBool>);
+impl EntryIoStream for ClosingStream {
+    fn next(&mut self, entry: &impl Entry) -> Result<(), IoStreamError> {
+        if let Some(id) = id_of(entry) {
+            self.0.lock().unwrap().push(id);
+        }
+        Ok(())
+    }
+    fn flush(&mut self) -> std::io::Result<()> {
+        Ok(())
+    }
+}
+impl Drop for ClosingStream {
+    fn drop(&mut self) {
+        self.1.store(true, std::sync::atomic::Ordering::SeqCst);
+    }
+}
+
+/// C05, "if the join handle is forgotten ... the background thread then exits rather than
+/// running forever", for every way of abandoning the handle: `forget()`, `mem::forget`, a leaked
+/// box. Fixed scenario on a REAL queue (writer thread, 10 ms flush interval): three entries, all
+/// queue handles dropped; the stream has seen them and has been dropped within 30 s.
+fn abandoned_join_handle(rep: &mut Report) {
+    use metrique_writer::EntrySink;
+    let mut runs = vec![];
+    for how in ["forget()", "std::mem::forget", "Box::leak"] {
+        let seen = Arc::new(Mutex::new(Vec::new()));
+        let closed = Arc::new(std::sync::atomic::AtomicBool::new(false));
+        let (queue, handle) = BackgroundQueueBuilder::new()
+            .capacity(16)
+            .flush_interval(std::time::Duration::from_millis(10))
+            .build::<Tag>(ClosingStream(seen.clone(), closed.clone()));
+        match how {
+            "forget()" => handle.forget(),
+            "std::mem::forget" => std::mem::forget(handle),
+            _ => {
+                Box::leak(Box::new(handle));
+            }
+        }
+        for id in 0..3u64 {
+            queue.append(Tag(id));
+        }
+        drop(queue);
+        let t0 = std::time::Instant::now();
+        while !closed.load(std::sync::atomic::Ordering::SeqCst) && t0.elapsed() < std::time::Duration::from_secs(30) {
+            std::thread::sleep(std::time::Duration::from_millis(5));
+        }
+        let is_closed = closed.load(std::sync::atomic::Ordering::SeqCst);
+        let got = seen.lock().unwrap().clone();
+        runs.push(json!({"join_handle_abandoned_by": how, "stream_dropped_within_30s": is_closed, "reached_the_stream": got}));
+        if !is_closed || got != vec![0, 1, 2] {
+            rep.violation(
+                "writer:abandoned-join-handle:writer-does-not-shut-down",
+                format!("the join handle was abandoned through {how} and the last queue handle dropped: after {} the stream has {}been dropped and has seen {got:?}", if is_closed { "that" } else { "30 s" }, if is_closed { "" } else { "NOT " }),
+                json!({"join_handle_abandoned_by": how, "stream_dropped": is_closed, "reached_the_stream": got}),
+            );
+        }
+    }
+    rep.set("writer_model_abandoned_join_handle", json!(runs));
+}
+
 pub fn run(prop: &'static str) {
     let mut rep = Report::from_args(prop, "model_checking");
+    if prop == "C09" && rep.replay.is_none() {
+        overflow_counter_through_the_global_route(&mut rep);
+    }
+    if prop == "C05" && rep.replay.is_none() {
+        abandoned_join_handle(&mut rep);
+    }
     if (prop == "C01" || prop == "C04") && rep.replay.is_none() {
         smallest_flush_interval(&mut rep, prop);
     }
